@@ -69,6 +69,10 @@ def gen_timeline(rng, cls):
     return initial, changes
 
 
+def pinned(tier):
+    return [dict(cls="repo_test_suite", select=['tests/unit_tests/timing', 'tests/unit_tests/sm', 'tests/unit_tests/bms'])] if tier == "thorough" else []
+
+
 def gen(rng, tier, k):
     cls = rng.choice(["mixed_metronome_measure_lines", "const4_anywhere", "const4_anywhere", "const_other", "single", "snapper_only"])
     if cls == "snapper_only":
@@ -134,6 +138,9 @@ def setup(ctx):
 
 
 def run(ctx, case):
+    if case.get("cls") == "repo_test_suite":
+        from rv.suite import run_repo_tests
+        return run_repo_tests(ctx, case.get("select"))
     import math
 
     import numpy as np
